@@ -100,6 +100,10 @@ func main() {
 			}
 			fmt.Println(prop, len(specs), "flow specs", len(reads), "read sets")
 		}
+	case "gen-freshret":
+		c := rules.NewCtx("C03", "gen")
+		n, err := rules.GenFreshRet(c)
+		fmt.Println(n, "functions", err)
 	case "gen-mustwrite":
 		for _, prop := range os.Args[2:] {
 			c := rules.NewCtx(prop, "gen")
